@@ -57,3 +57,71 @@ def validate_reasm(chk, runs):
             chk.violation(f"reassembly trace rejected by the contract at event {p} ({ev}): records are not handed on in stream order / "
                           f"before their bytes were captured / with the wrong provenance",
                           dict(trace=t, first_unmatched_event=p, scenario=runs[ri].get("sc")))
+
+
+def h8(b):
+    import hashlib
+    return hashlib.sha256(bytes(b)).hexdigest()[:16]
+
+
+def tls_truth(conn, hs_in_log=True):
+    """ground truth of the protected records of a wire.tlsconn.TlsConn, per direction"""
+    from wire import tlsref as R
+    out = {"c": [], "s": []}
+    implicit = conn.ver in (R.SSL30, R.TLS10) and conn.suite.mode == "CBC"
+    last = {}
+    if implicit:
+        last = {"c": conn.kb["civ"], "s": conn.kb["siv"]}
+    for r in conn.records:
+        if r.prot is None:
+            continue
+        d = dict(ct=h8(r.raw), ep=r.prot["ep"], seq=r.prot["seq"], ph=h8(r.prot["inner"]), plen=len(r.prot["inner"]),
+                 app=r.kind == "APP", fin13=r.prot["fin13"], mayFail=(r.prot["ep"] == "hs" and not hs_in_log),
+                 chain=h8(last[r.d]) if implicit else "")
+        if implicit:
+            body = r.raw[5:]
+            if conn.etm:
+                body = body[:-R.HLEN[conn.suite.mac]]
+            last[r.d] = body[-conn.suite.block:]
+        out[r.d].append(d)
+    return out
+
+
+def validate_tls(chk, runs):
+    """runs: list of dict(conn=TlsConn, events=[hook events], complete=bool, hs_in_log=bool, sc=scenario)"""
+    from wire import tlsref as R
+    traces = []
+    for run in runs:
+        conn = run["conn"]
+        evs = []
+        for e in run["events"]:
+            if e["ev"] == "decrypt":
+                evs.append(dict(ev="decrypt", dir=e["dir"], ok=bool(e["ok"]), ct=e["ct"], ph=e.get("ph") or "", plen=e.get("plen", -1) if e.get("plen") is not None else -1,
+                                seq=e["seq"], seq_after=e["seq_after"], epoch=e["epoch"], chain=e.get("chain") or ""))
+            elif e["ev"] == "keyswitch":
+                evs.append(dict(ev="keyswitch", dir=e["dir"], epoch=e["epoch"], seq_after=e["seq_after"]))
+        if not evs:
+            continue
+        truth = run.get("truth") or tls_truth(conn, run.get("hs_in_log", True))
+        traces.append(dict(id=len(traces) + 1, recs=truth, events=evs, complete=bool(run.get("complete", True)),
+                           useSeq=conn.suite.aead, useChain=(conn.ver in (R.SSL30, R.TLS10) and conn.suite.mode == "CBC"),
+                           _sc=run.get("sc")))
+    if not traces:
+        chk.extra["trace_tls"] = "no decrypt events recorded (hooks moved or removed?)"
+        return
+    # TLC cannot read JSON null: normalise
+    def norm(x):
+        if isinstance(x, dict):
+            return {k: norm(v) for k, v in x.items() if not k.startswith("_")}
+        if isinstance(x, list):
+            return [norm(v) for v in x]
+        return "" if x is None else x
+    acc, prog, r = batch("TraceTls", [norm(t) for t in traces])
+    chk.tlc("TraceTls batch", r)
+    chk.traces_validated += len(traces)
+    for t in traces:
+        if t["id"] not in acc:
+            p = prog[t["id"] - 1]
+            ev = t["events"][p - 1] if 0 < p <= len(t["events"]) else "end of trace: not every application record was decrypted"
+            chk.violation(f"record-layer trace rejected by the contract at event {p}: {ev}",
+                          dict(first_unmatched_event=p, event=ev, scenario=t["_sc"], trace_events=t["events"][:p + 2]))
